@@ -101,12 +101,19 @@ func main() {
 		if line == "" {
 			continue
 		}
-		c, err := strconv.Atoi(line)
+		f := strings.Fields(line)
+		c, err := strconv.Atoi(f[0])
 		if err != nil {
 			fmt.Fprintln(os.Stderr, "bad case:", line)
 			os.Exit(2)
 		}
-		res := explore.RunCase(sc, *tier, c, dl)
+		cdl := dl
+		if len(f) > 1 { // per-case deadline (unix seconds) dealt by the driver
+			if d, err := strconv.ParseInt(f[1], 10, 64); err == nil && d > 0 {
+				cdl = time.Unix(d, 0)
+			}
+		}
+		res := explore.RunCase(sc, *tier, c, cdl)
 		explore.WriteJSON(os.Stdout, res)
 	}
 }
